@@ -99,8 +99,29 @@ def check_fused_subgraphs(dsk, stems):
     return n
 
 
+_UUID_PREFIXES = ("zpartd-", "shuffle-partition-", "barrier-")
+
+
+def _strip_uuid(t, depth=0):
+    """Disk-shuffle helper keys carry a per-materialisation uuid (listed finding F2): two materialisations of the
+    same DiskShuffle differ only there, which is not two *different* tasks in the property's sense."""
+    if depth > 6:
+        return t
+    if isinstance(t, str) and t.startswith(_UUID_PREFIXES):
+        for p_ in _UUID_PREFIXES:
+            if t.startswith(p_):
+                return p_ + "*"
+    if isinstance(t, tuple):
+        return tuple(_strip_uuid(x, depth + 1) for x in t)
+    if isinstance(t, list):
+        return [_strip_uuid(x, depth + 1) for x in t]
+    return t
+
+
 def _task_token(task):
     from dask.base import tokenize
+
+    task = _strip_uuid(task)
 
     try:
         return tokenize(task)
